@@ -148,7 +148,8 @@ def r06_1(chk, repo):
                         tq = tq + ".__init__"
                     work.append((tm.rel, tq))
             elif cn.startswith(".") and e.target is not None:
-                recv = e.target.as_atom()[1].key()
+                r0 = (e.target.as_atom() or (None, None))[1]
+                recv = r0.key() if isinstance(r0, P) else ""
                 meth = cn[1:]
                 if recv == "self":
                     cls = q.split(".")[0]
